@@ -1,15 +1,20 @@
 //! C12 harness: instancing a variable font.
 //!
 //!   c12_instance replay <cases.ndjson> <trace.ndjson>
-//!       every CASE printed by TLC from MC_Variation (axes, glyph, tuple variations with the
-//!       packed point/delta bytes produced by the specification's own encoders, HVAR / MVAR
-//!       variants, user coordinates) is written out as a complete variable TrueType font and
+//!       every CASE printed by TLC from MC_Variation (axes, glyph, component offsets, tuple
+//!       variations of glyphs 1-3 with the packed point/delta bytes produced by the specification's
+//!       own encoders, HVAR / MVAR variants, numberOfHMetrics, cvt+cvar, user coordinates, the
+//!       normalised tuple and the acceptable interval of every output number, both passed through
+//!       to the judge) is written out as a complete variable TrueType font and
 //!       instanced with `allsorts::variations::instance`; the output font is read back with the
 //!       independent readers below and one event per glyph / metric / instance is recorded.
 //!   c12_instance record <seed> <coords-per-font> <trace.ndjson>
 //!       the repository's variable fonts: gvar / HVAR containers are split by the independent
 //!       parsers below (the packed data itself is decoded by the TLA+ judge), each font is
-//!       instanced at the default coordinates and at seeded random coordinates.
+//!       instanced at the default coordinates, the axis ends, one axis at a time, and at seeded
+//!       random coordinates.
+//!   c12_instance one <font file name> <trace.ndjson> <user value>...
+//!       one repository font at one user tuple (raw 16.16 values), for the replay of a finding.
 //!
 //! Events (judged by Trace_Variation): Glyph, Metric, Static, Failed.
 //! The harness decides nothing.
@@ -731,7 +736,9 @@ fn emit_instance(
     coords: &[i64],
     glyph_limit: usize,
     expect: Option<&Value>,
+    norm: Option<&Value>,
 ) {
+    let norm = norm.cloned().unwrap_or_else(|| json!([]));
     let (loads, is_var) = loads_as_static(out);
     let of = match read_font(out) {
         Ok(f) => f,
@@ -753,7 +760,7 @@ fn emit_instance(
                 "Glyph",
                 json!({"gid": gid, "kind": "cff", "coords": coords, "pts": [], "ends": [],
                        "adv": src.metrics[gid].0, "lsb": src.metrics[gid].1, "xmin": 0, "plain": true,
-                       "hasShared": false, "tuples": [], "ser": [], "hvar": hvar, "exp": []}),
+                       "hasShared": false, "tuples": [], "ser": [], "hvar": hvar, "exp": [], "norm": norm}),
                 json!({"kind": "cff", "pts": [], "ends": [], "adv": of.metrics[gid].0, "lsb": of.metrics[gid].1,
                        "xminKnown": false, "xmin": 0, "on": true}),
             );
@@ -778,7 +785,7 @@ fn emit_instance(
                    "adv": src.metrics[gid].0, "lsb": src.metrics[gid].1,
                    "xmin": if sg.kind == "empty" { 0 } else { sg.bbox[0] as i32 },
                    "plain": plain, "hasShared": has_shared, "tuples": tuples, "ser": ser, "hvar": hvar,
-                   "exp": expect.and_then(|x| x.get(gid)).cloned().unwrap_or_else(|| json!([]))}),
+                   "exp": expect.and_then(|x| x.get(gid)).cloned().unwrap_or_else(|| json!([])), "norm": norm}),
             json!({"kind": og.kind, "pts": pts_json(&og.pts), "ends": og.ends, "adv": of.metrics[gid].0,
                    "lsb": of.metrics[gid].1,
                    "xminKnown": matches!(xmin_out, Some(Some(_))) || og.kind == "empty",
@@ -820,14 +827,30 @@ fn build_case_font(c: &Value) -> Vec<u8> {
         s = e + 1;
     }
     let simple = GlyphSpec::Simple { contours: contours.clone(), instructions: vec![] };
-    let (cdx, cdy) = (c["comp"][0].as_i64().unwrap() as i16, c["comp"][1].as_i64().unwrap() as i16);
+    // glyph 2: every component is glyph 1 at an x/y offset; "xf": the (single) component is scaled by 0.5
+    let xf = c["xf"].as_bool().unwrap();
+    let comps: Vec<(i16, i16)> =
+        c["comps"].as_array().unwrap().iter().map(|p| (p[0].as_i64().unwrap() as i16, p[1].as_i64().unwrap() as i16)).collect();
     let composite = GlyphSpec::Composite {
-        components: vec![Component { gid: 1, dx: cdx, dy: cdy, transform: None, flags_extra: 0 }],
+        components: comps
+            .iter()
+            .map(|&(dx, dy)| Component { gid: 1, dx, dy, transform: if xf { Some([8192, 0, 0, 8192]) } else { None }, flags_extra: 0 })
+            .collect(),
         instructions: vec![],
     };
     let glyphs = vec![GlyphSpec::Empty, simple.clone(), composite.clone(), GlyphSpec::Empty];
     let bb = vh::fontgen::simple_bbox(&contours);
-    let cbb = (bb.0 + cdx, bb.1 + cdy, bb.2 + cdx, bb.3 + cdy);
+    let half = |v: i16| (v as i32).div_euclid(2) as i16;
+    let cbb = if xf {
+        (half(bb.0) + comps[0].0, half(bb.1) + comps[0].1, half(bb.2 + 1) + comps[0].0, half(bb.3 + 1) + comps[0].1)
+    } else {
+        (
+            bb.0 + comps.iter().map(|c| c.0).min().unwrap(),
+            bb.1 + comps.iter().map(|c| c.1).min().unwrap(),
+            bb.2 + comps.iter().map(|c| c.0).max().unwrap(),
+            bb.3 + comps.iter().map(|c| c.1).max().unwrap(),
+        )
+    };
     let recs = vec![
         vec![],
         encode_glyph(&simple, None),
@@ -840,7 +863,7 @@ fn build_case_font(c: &Value) -> Vec<u8> {
     f.loca_long = long;
     let m = ivec(&c["metrics"]); // adv1, lsb1, adv2, lsb2
     f.metrics = vec![(400, 0), (m[0] as u16, m[1] as i16), (m[2] as u16, m[3] as i16), (250, 0)];
-    f.num_h_metrics = 4;
+    f.num_h_metrics = c["nhm"].as_u64().unwrap() as u16;
     f.cmap = vec![(0x41, 1), (0x42, 2), (0x20, 3)];
     let tl = |key: &str| -> Option<(Option<Vec<u8>>, Vec<Value>)> {
         let t = c[key]["tuples"].as_array().unwrap().clone();
@@ -850,7 +873,7 @@ fn build_case_font(c: &Value) -> Vec<u8> {
         let sp = if c[key]["hasShared"].as_bool().unwrap() { Some(bvec(&c[key]["shared"])) } else { None };
         Some((sp, t))
     };
-    let gvar = gvar_bytes(naxes, &[None, tl("g1"), tl("g2"), None], long);
+    let gvar = gvar_bytes(naxes, &[None, tl("g1"), tl("g2"), tl("g3")], long);
     f.extra_tables.push(("glyf".into(), glyf));
     f.extra_tables.push(("loca".into(), loca));
     f.extra_tables.push(("fvar".into(), fvar_bytes(naxes)));
@@ -888,6 +911,20 @@ fn build_case_font(c: &Value) -> Vec<u8> {
         recs.sort();
         f.extra_tables.push(("MVAR".into(), mvar_bytes(&recs, &ivs)));
     }
+    if c["cvar"].as_bool().unwrap() {
+        // three control values; one tuple (peak +1 on the first axis) with deltas for all of them
+        let mut cvt = W::new();
+        cvt.i16(10).i16(-20).i16(300);
+        let mut cv = W::new();
+        cv.u16(1).u16(0).u16(1).u16((12 + 2 * naxes) as u16);
+        cv.u16(5).u16(0x8000 | 0x2000);
+        for a in 0..naxes {
+            cv.i16(if a == 0 { 16384 } else { 0 });
+        }
+        cv.bytes(&[0x00, 0x02, 5, 0xFB, 100]);
+        f.extra_tables.push(("cvt ".into(), cvt.done()));
+        f.extra_tables.push(("cvar".into(), cv.done()));
+    }
     f.build()
 }
 
@@ -913,14 +950,17 @@ fn replay(cases: &str, out: &str, dump_dir: Option<&str>) {
             r.instances += 1;
             match run_instance(&font, &user) {
                 Inst::Ok(o, coords) => {
-                    emit_instance(&mut r, &case, &src, gvar, &hvar, mvar.as_ref(), &user, &o, &coords, 64, c["expect"].get(ui))
+                    emit_instance(&mut r, &case, &src, gvar, &hvar, mvar.as_ref(), &user, &o, &coords, 64, c["expect"].get(ui), c["norm"].get(ui))
                 }
                 Inst::Err(e) => {
                     if e.starts_with("Panic:") {
                         r.panics += 1;
                     }
                     r.failed += 1;
-                    r.ev(&case, "Failed", json!({"user": user, "stage": "instance", "generated": true}), json!({"err": e}));
+                    // "generated": an error (not only a panic) counts against the property, unless the case says
+                    // that refusing the font is a conformant outcome
+                    let strict = !c["mayfail"].as_bool().unwrap_or(false);
+                    r.ev(&case, "Failed", json!({"user": user, "stage": "instance", "generated": strict}), json!({"err": e}));
                 }
             }
         }
@@ -946,46 +986,95 @@ fn parse_fvar_axes(d: &[u8]) -> Option<Vec<[i32; 3]>> {
         .collect()
 }
 
+struct VarFont {
+    name: String,
+    data: Vec<u8>,
+    axes: Vec<[i32; 3]>,
+    is_cff2: bool,
+}
+
+fn load_var_font(path: &str) -> Option<VarFont> {
+    let data = std::fs::read(path).ok()?;
+    if data.len() < 12 || !matches!(be32(&data, 0), Some(0x00010000) | Some(0x4F54544F) | Some(0x74727565)) {
+        return None;
+    }
+    let dir = read_sfnt_dir(&data, 0)?;
+    let axes = table_bytes(&data, &dir, "fvar").and_then(parse_fvar_axes)?;
+    if axes.is_empty() {
+        return None;
+    }
+    let name = path.rsplit('/').next().unwrap_or(path).to_string();
+    let is_cff2 = table_bytes(&data, &dir, "CFF2").is_some();
+    Some(VarFont { name, data, axes, is_cff2 })
+}
+
+/// Instance one font at the given user tuples and record the events.
+fn record_font(r: &mut Rec, f: &VarFont, users: &[Vec<i32>], glyph_limit: usize) -> bool {
+    let data = &f.data;
+    let Some(dir) = read_sfnt_dir(data, 0) else { return false };
+    let src = match read_font(data) {
+        Ok(s) => s,
+        Err(_) => return false,
+    };
+    let gvar = table_bytes(data, &dir, "gvar");
+    let hvar = table_bytes(data, &dir, "HVAR").and_then(read_hvar).unwrap_or_else(no_hvar);
+    let mvar = table_bytes(data, &dir, "MVAR").and_then(read_mvar);
+    for (ui, user) in users.iter().enumerate() {
+        let case = format!("font/{}/u{}", f.name, ui);
+        r.instances += 1;
+        match run_instance(data, user) {
+            Inst::Ok(o, coords) => {
+                emit_instance(r, &case, &src, gvar, &hvar, mvar.as_ref(), user, &o, &coords, glyph_limit, None, None)
+            }
+            Inst::Err(e) => {
+                if e.starts_with("Panic:") {
+                    r.panics += 1;
+                }
+                r.failed += 1;
+                r.ev(&case, "Failed", json!({"user": user, "stage": "instance", "generated": false}), json!({"err": e}));
+            }
+        }
+    }
+    true
+}
+
 fn record(seed: u64, per_font: usize, glyph_limit: usize, out: &str) {
     let mut rng = StdRng::seed_from_u64(seed);
     let mut r = Rec { w: NdWriter::create(out), i: 0, instances: 0, panics: 0, failed: 0 };
     let mut fonts = 0;
     let mut cff2 = 0;
+    let mut names: Vec<String> = Vec::new();
     for path in repo_fonts() {
-        let Ok(data) = std::fs::read(&path) else { continue };
-        if data.len() < 12 || !matches!(be32(&data, 0), Some(0x00010000) | Some(0x4F54544F) | Some(0x74727565)) {
-            continue;
-        }
-        let Some(dir) = read_sfnt_dir(&data, 0) else { continue };
-        let Some(axes) = table_bytes(&data, &dir, "fvar").and_then(parse_fvar_axes) else { continue };
-        if axes.is_empty() {
-            continue;
-        }
-        let name = path.rsplit('/').next().unwrap_or(&path).to_string();
-        let is_cff2 = table_bytes(&data, &dir, "CFF2").is_some();
-        let src = match read_font(&data) {
-            Ok(f) => f,
-            Err(_) => continue,
-        };
-        fonts += 1;
-        cff2 += is_cff2 as usize;
-        let gvar = table_bytes(&data, &dir, "gvar");
-        let hvar = table_bytes(&data, &dir, "HVAR").and_then(read_hvar).unwrap_or_else(no_hvar);
-        let mvar = table_bytes(&data, &dir, "MVAR").and_then(read_mvar);
-        // user coordinate tuples: default, all-min, all-max, then seeded random ones
+        let Some(f) = load_var_font(&path) else { continue };
+        let axes = &f.axes;
+        // user coordinate tuples: default, all-min, all-max, one axis at a time at its ends and
+        // half way, then seeded random ones (some values outside the axis range)
+        let dflt: Vec<i32> = axes.iter().map(|a| a[1]).collect();
         let mut users: Vec<Vec<i32>> = vec![
-            axes.iter().map(|a| a[1]).collect(),
+            dflt.clone(),
             axes.iter().map(|a| a[0]).collect(),
             axes.iter().map(|a| a[2]).collect(),
         ];
+        for (k, a) in axes.iter().enumerate() {
+            for v in [a[0], a[2], ((a[0] as i64 + a[1] as i64) / 2) as i32, ((a[1] as i64 + a[2] as i64) / 2) as i32] {
+                if v != a[1] {
+                    let mut u = dflt.clone();
+                    u[k] = v;
+                    if !users.contains(&u) {
+                        users.push(u);
+                    }
+                }
+            }
+        }
         for _ in 0..per_font {
             users.push(
                 axes.iter()
                     .map(|a| {
                         let (mn, mx) = (a[0] as i64, a[2] as i64);
-                        match rng.gen_range(0..6) {
+                        match rng.gen_range(0..8) {
                             0 => a[1],
                             1 => (mn - 65536).max(i32::MIN as i64) as i32,
+                            2 => (mx + 65536).min(i32::MAX as i64) as i32,
                             _ if mn < mx => rng.gen_range(mn..=mx) as i32,
                             _ => a[1],
                         }
@@ -993,29 +1082,34 @@ fn record(seed: u64, per_font: usize, glyph_limit: usize, out: &str) {
                     .collect(),
             );
         }
-        for (ui, user) in users.iter().enumerate() {
-            let case = format!("font/{}/u{}", name, ui);
-            r.instances += 1;
-            match run_instance(&data, user) {
-                Inst::Ok(o, coords) => {
-                    emit_instance(&mut r, &case, &src, gvar, &hvar, mvar.as_ref(), user, &o, &coords, glyph_limit, None)
-                }
-                Inst::Err(e) => {
-                    if e.starts_with("Panic:") {
-                        r.panics += 1;
-                    }
-                    r.failed += 1;
-                    r.ev(&case, "Failed", json!({"user": user, "stage": "instance", "generated": false}), json!({"err": e}));
-                }
-            }
+        if record_font(&mut r, &f, &users, glyph_limit) {
+            fonts += 1;
+            cff2 += f.is_cff2 as usize;
+            names.push(f.name.clone());
         }
     }
     let n = r.w.n;
     r.w.finish();
     println!(
         "{}",
-        json!({"events": n, "fonts": fonts, "cff2_fonts": cff2, "instances": r.instances, "panics": r.panics, "failed": r.failed})
+        json!({"events": n, "fonts": fonts, "cff2_fonts": cff2, "instances": r.instances, "panics": r.panics,
+               "failed": r.failed, "font_names": names})
     );
+}
+
+/// One repository font (by file name) at one user tuple: used by the replay of a finding.
+fn one(name: &str, user: Vec<i32>, out: &str) {
+    let mut r = Rec { w: NdWriter::create(out), i: 0, instances: 0, panics: 0, failed: 0 };
+    for path in repo_fonts() {
+        if path.rsplit('/').next() == Some(name) {
+            if let Some(f) = load_var_font(&path) {
+                record_font(&mut r, &f, &[user.clone()], 1 << 16);
+            }
+        }
+    }
+    let n = r.w.n;
+    r.w.finish();
+    println!("{}", json!({"events": n, "instances": r.instances, "panics": r.panics, "failed": r.failed}));
 }
 
 fn main() {
@@ -1028,8 +1122,9 @@ fn main() {
             args[4].parse().expect("glyph limit"),
             &args[5],
         ),
+        Some("one") => one(&args[2], args[4..].iter().map(|v| v.parse().expect("user value")).collect(), &args[3]),
         _ => {
-            eprintln!("usage: c12_instance replay <cases> <trace> [dumpdir] | record <seed> <n> <glyph-limit> <trace>");
+            eprintln!("usage: c12_instance replay <cases> <trace> [dumpdir] | record <seed> <n> <glyph-limit> <trace> | one <font file name> <trace> <user raw 16.16>...");
             std::process::exit(2);
         }
     }
